@@ -17,7 +17,10 @@ type Case struct {
 	AsPoly bool          `json:"as_polygon,omitempty"` // a single polygon passed as geom.Polygon instead of MultiPolygon
 	Box    bool          `json:"box,omitempty"`        // P is the *Bounds of Polys' first ring's first two vertices
 	Pt     vkit.P2       `json:"pt"`
-	Recv   *vkit.GJ      `json:"recv,omitempty"`
+	// ScaleExp: every coordinate of a grid/recv case is multiplied by 2^ScaleExp before it is handed to geom (exact in
+	// binary floating point), while the oracle works on the unscaled grid: classification is scale invariant
+	ScaleExp int      `json:"scale_exp,omitempty"`
+	Recv     *vkit.GJ `json:"recv,omitempty"`
 }
 
 func halfGrid(lim int) *rapid.Generator[float64] {
@@ -78,10 +81,34 @@ func gen(t *rapid.T) Case {
 	if len(c.Polys) == 1 {
 		c.AsPoly = rapid.Bool().Draw(t, "aspoly")
 	}
+	if c.Kind != "float" && rapid.IntRange(0, 3).Draw(t, "scaled") == 0 {
+		c.ScaleExp = rapid.SampledFrom([]int{-1000, -600, -530, -300, -60, 20, 60, 300, 510, 600, 1000}).Draw(t, "scaleexp")
+	}
 	if c.Kind == "grid" && len(c.Polys[0][0]) >= 2 && rapid.IntRange(0, 9).Draw(t, "box") == 0 {
 		c.Box = true
 	}
 	return c
+}
+
+func scaleP(p vkit.P2, e int) vkit.P2 {
+	return vkit.MkP(math.Ldexp(float64(p[0]), e), math.Ldexp(float64(p[1]), e))
+}
+
+func scalePolys(polys [][][]vkit.P2, e int) [][][]vkit.P2 {
+	if e == 0 {
+		return polys
+	}
+	out := make([][][]vkit.P2, len(polys))
+	for i, p := range polys {
+		out[i] = make([][]vkit.P2, len(p))
+		for j, r := range p {
+			out[i][j] = make([]vkit.P2, len(r))
+			for k, q := range r {
+				out[i][j][k] = scaleP(q, e)
+			}
+		}
+	}
+	return out
 }
 
 func polygonal(c Case) (geom.Polygonal, [][][]vkit.P2) {
@@ -89,10 +116,10 @@ func polygonal(c Case) (geom.Polygonal, [][][]vkit.P2) {
 		a, b := c.Polys[0][0][0], c.Polys[0][0][1]
 		mn := vkit.MkP(math.Min(float64(a[0]), float64(b[0])), math.Min(float64(a[1]), float64(b[1])))
 		mx := vkit.MkP(math.Max(float64(a[0]), float64(b[0])), math.Max(float64(a[1]), float64(b[1])))
-		bd := &geom.Bounds{Min: mn.Pt(), Max: mx.Pt()}
+		bd := &geom.Bounds{Min: scaleP(mn, c.ScaleExp).Pt(), Max: scaleP(mx, c.ScaleExp).Pt()}
 		return bd, [][][]vkit.P2{{{mn, {mx[0], mn[1]}, mx, {mn[0], mx[1]}}}}
 	}
-	mp := vkit.GJ{T: "MultiPolygon", Polys: c.Polys}.Geom().(geom.MultiPolygon)
+	mp := vkit.GJ{T: "MultiPolygon", Polys: scalePolys(c.Polys, c.ScaleExp)}.Geom().(geom.MultiPolygon)
 	if c.AsPoly && len(mp) == 1 {
 		return mp[0], c.Polys
 	}
@@ -123,7 +150,10 @@ func run(c Case) (v vkit.Verdict) {
 				return v
 			}
 		}
-		got := int(c.Pt.Pt().Within(P))
+		got := int(scaleP(c.Pt, c.ScaleExp).Pt().Within(P))
+		if c.ScaleExp != 0 {
+			v.Class("scaled_by_power_of_two")
+		}
 		nrings := 0
 		touch := want == vkit.OnEdge
 		for _, poly := range ref {
@@ -144,7 +174,18 @@ func run(c Case) (v vkit.Verdict) {
 			return v.Fail("Point%v.Within = %s, exact oracle says %s", c.Pt, names[got], names[want])
 		}
 	case "recv":
-		g := c.Recv.Geom()
+		rs := *c.Recv
+		if c.ScaleExp != 0 {
+			rs.Pts = scalePolys([][][]vkit.P2{{c.Recv.Pts}}, c.ScaleExp)[0][0]
+			rs.Rings = scalePolys([][][]vkit.P2{c.Recv.Rings}, c.ScaleExp)[0]
+			if c.Recv.Pts == nil {
+				rs.Pts = nil
+			}
+			if c.Recv.Rings == nil {
+				rs.Rings = nil
+			}
+		}
+		g := rs.Geom()
 		wantOutside := false
 		verts := c.Recv.Flatten()
 		for _, q := range verts {
